@@ -1051,6 +1051,35 @@ def substitute_args(e, args):
     return tuple(substitute_args(x, args) if isinstance(x, tuple) else x for x in e)
 
 
+def closure_captures(fx, cb):
+    """expressions (in the parent's terms) of the values a closure body captures, in capture order; None if not found"""
+    parent = fx.bodies.get(cb.parent) if cb is not None and cb.kind == "Closure" else None
+    if parent is None:
+        return None, None
+    for bb, j, st in parent.stmts():
+        rv = st.get("rv")
+        if rv and rv["k"] == "agg" and rv.get("agg") == "closure" and rv.get("closure") == cb.name:
+            return parent, [parent.expr(o, expand_named=True, at=bb) for o in rv["ops"]]
+    return parent, None
+
+
+def resolve_captures(fx, cb, e):
+    """rewrite `(closure env).k` inside expression e (of closure body cb) by the captured value's expression in the parent"""
+    parent, caps = closure_captures(fx, cb)
+    if caps is None:
+        return e
+
+    def rec(x):
+        if not isinstance(x, tuple) or not x:
+            return x
+        if x[0] == "field" and isinstance(x[1], tuple) and x[1][:2] == ("arg", 1) and str(x[2]).isdigit() and int(x[2]) < len(caps):
+            return caps[int(x[2])]
+        if x[0] == "field" and isinstance(x[1], tuple) and x[1] and x[1][0] == "deref" and isinstance(x[1][1], tuple) and x[1][1][:2] == ("arg", 1) and str(x[2]).isdigit() and int(x[2]) < len(caps):
+            return caps[int(x[2])]
+        return tuple(rec(y) if isinstance(y, tuple) else y for y in x)
+    return rec(e)
+
+
 def enum_name(e):
     """'Variant' if e is a fieldless enum constant aggregate"""
     e = deep_strip(e)
